@@ -278,6 +278,37 @@ func isDoneChan(v ssa.Value) bool {
 	return true
 }
 
+// isTimerChan: a channel that delivers after a bounded time — time.After(d), or the C of a
+// time.NewTimer(d) / time.NewTicker(d) that is not re-armed with Reset.
+func isTimerChan(v ssa.Value) bool {
+	if CallResult(v, 0, "time.After") != nil {
+		return true
+	}
+	base, fld, ok := FieldLoad(v)
+	if !ok || fld != "C" {
+		return false
+	}
+	rs := Roots(base)
+	if len(rs) == 0 {
+		return false
+	}
+	for _, r := range rs {
+		call := CallResult(r, 0, "time.NewTimer", "time.NewTicker")
+		if call == nil {
+			return false
+		}
+		for _, u := range Refs(call) {
+			if cc := CallOf(u); cc != nil {
+				switch CalleeName(cc) {
+				case "(*time.Timer).Reset", "(*time.Ticker).Reset":
+					return false
+				}
+			}
+		}
+	}
+	return true
+}
+
 // ruleShimChannels — C12.C (typestate) and C12.B (no unguarded blocking send
 // in code that endpoint handlers call).
 func ruleShimChannels(c *Ctx, p *Prog, ruleC, ruleB string) {
@@ -1165,7 +1196,7 @@ func ruleCounterOnlyIncrements(c *Ctx, p *Prog, rule string) {
 func ruleNoDeferredCancelOnReturnedResponse(c *Ctx, p *Prog, rule string, pkgs ...string) {
 	n := 0
 	for _, pk := range pkgs {
-		for _, fn := range p.FuncsIn(pk) {
+		for _, fn := range p.AllFuncsIn(pk) {
 			res := fn.Signature.Results()
 			returnsResp := false
 			for k := 0; k < res.Len(); k++ {
